@@ -164,17 +164,16 @@ func indexUnescaped(s, sep []byte, escape bool) int {
 // get the first match in flags.
 // @return the matched pos in data and the index of flags.
 func firstMatch(data []byte, flags [][]byte) (pos, index int) {
-	pos = -1
-	index = pos
-
-	for i, flag := range flags {
-		if position := bytes.Index(data, flag); position >= 0 {
-			if pos > position || pos == -1 {
-				pos = position
-				index = i
+	// Scan the data once and stop at the first position where a flag starts.
+	// To search the whole data for each flag costs all the data which is
+	// buffered, for every token, even when the first match is at the front.
+	for i := range data {
+		for j, flag := range flags {
+			if bytes.HasPrefix(data[i:], flag) {
+				return i, j
 			}
 		}
 	}
 
-	return
+	return -1, -1
 }
